@@ -19,6 +19,149 @@ let class_name = function PanicNil -> "nil" | PanicLength -> "length" | PanicPre
 
 let u32_max = 4294967295
 
+(* ---- large files: the harness sends run-length encoded lines and an aggregated callback log.  Everything on
+   this path is tail recursive; the extracted specification is applied to one-line slices (the per-line rule is
+   pointwise: columns are independent of each other), so the stack stays small for 10^6 lines. *)
+let expand_rle (s : sx) : int list =
+  let rec rep v n acc = if n <= 0 then acc else rep v (n - 1) (v :: acc) in
+  List.rev (List.fold_left (fun acc r -> match ints_of_sx r with [v; n] -> rep v n acc | _ -> failwith "rle") [] (args s))
+let lines_of (p : sx) : int list =
+  match field_opt "flat" p with Some f -> ints_of_args f | None -> expand_rle (field "rle" p)
+let rec take_drop n l acc =
+  if n = 0 then (List.rev acc, l) else match l with [] -> (List.rev acc, []) | x :: r -> take_drop (n - 1) r (x :: acc)
+(* spec_lines / spec_report_count of the extracted specification, applied line by line (one-line slices of all
+   copies; the answers are remembered per distinct column).  All copies have the same length here. *)
+let spec_by_line (day : int) (self : int list) (others : int list list) : int list * int =
+  let zday = z_of_int day in
+  let tbl : (int list, int * int) Hashtbl.t = Hashtbl.create 1024 in
+  let a = Array.of_list self and os = List.map Array.of_list others in
+  let n = Array.length a in
+  let out = Array.make n 0 and nrep = ref 0 in
+  for i = 0 to n - 1 do
+    let col = a.(i) :: List.map (fun o -> o.(i)) os in
+    let (v, r) = match Hashtbl.find_opt tbl col with
+      | Some x -> x
+      | None ->
+          let s1 = [z_of_int a.(i)] and o1 = List.map (fun o -> [z_of_int o.(i)]) os in
+          let x = ((match spec_lines zday s1 o1 with [v] -> int_of_z v | _ -> failwith "spec_lines on one line"),
+                   int_of_nat (spec_report_count s1 o1)) in
+          Hashtbl.add tbl col x; x in
+    out.(i) <- v; nrep := !nrep + r
+  done;
+  (Array.to_list out, !nrep)
+let no_mark_by_line (l : int list) : bool =
+  let tbl : (int, bool) Hashtbl.t = Hashtbl.create 64 in
+  List.for_all (fun v -> match Hashtbl.find_opt tbl v with
+    | Some b -> b
+    | None -> let b = no_mark_b [z_of_int v] in Hashtbl.add tbl v b; b) l
+let first_diff (a : int list) (b : int list) : string =
+  let rec go i a b = match a, b with
+    | x :: a', y :: b' -> if x <> y then Printf.sprintf "line %d of %d: result %d, rule %d" i (i + 1 + List.length a') x y else go (i + 1) a' b'
+    | [], [] -> "equal" | _ -> Printf.sprintf "lengths differ from line %d on" i in
+  go 0 a b
+let show_rle (l : int list) : string =
+  let rec go l acc = match l with
+    | [] -> List.rev acc
+    | x :: _ ->
+        let rec run n l = match l with y :: r when y = x -> run (n + 1) r | _ -> (n, l) in
+        let (n, r) = run 0 l in
+        go r ((if n = 1 then string_of_int x else Printf.sprintf "%dx%d" x n) :: acc) in
+  let items = go l [] in
+  let k = List.length items in
+  if k <= 40 then "[" ^ String.concat ";" items ^ "]"
+  else
+    let rec drop n l = if n = 0 then l else match l with [] -> [] | _ :: r -> drop (n - 1) r in
+    "[" ^ String.concat ";" (fst (take_drop 15 items [])) ^ "; ... ;" ^ String.concat ";" (drop (k - 20) items) ^ "]"
+
+(* long arrays are printed run-length encoded and abbreviated *)
+let show_ints l = if List.compare_length_with l 64 > 0 then show_rle l else show_ints l
+
+(* the fine correspondence of a large case is replayed through the model only when it is cheap:
+   the model's flatten costs nodes x lines and its recursion depth is the number of lines *)
+let fine_ok (len : int) (nnodes : int) = len <= 33000 && nnodes * len <= 1_000_000
+
+(* ------------------------------------------------------------------ file level, large files *)
+let big_file_case id c obs day copies =
+  count "file_big";
+  let (self_nodes, self_flat) = match copies with Some x :: _ -> x | _ -> failwith "no self" in
+  let others = List.tl copies in
+  let len = List.length self_flat in
+  let res = List.hd (args (field "res" obs)) in
+  let post = field "post" obs in
+  if field_opt "observe-panic" post <> None then mismatch id "the file could not be read back after Merge" else begin
+  let pself = field "self" post in
+  let post_nodes = nodes_of_sx (field "nodes" pself) in
+  let post_flat = lines_of pself in
+  let post_len = int_of_sx (List.hd (args (field "len" pself))) in
+  let post_count = int_of_sx (List.hd (args (field "count" pself))) in
+  (* (updater, current, previous, delta, how often) *)
+  let logsum = List.map (fun e -> match ints_of_sx e with [k; cu; pr; d; n] -> (k, cu, pr, d, n) | _ -> failwith "logsum") (args (field "logsum" obs)) in
+  let must_refuse = List.exists (fun o -> match o with None -> true | Some (_, fl) -> List.length fl <> len) others in
+  if must_refuse then count "file_must_refuse" else count "file_mergeable";
+  let in_range = day >= 0 && day < u32_max in
+  let day_marked = mark (z_of_int day) in
+  let nnodes = List.fold_left (fun a o -> match o with Some (ns, _) -> max a (List.length ns) | None -> a) (List.length post_nodes) copies in
+  let fine = fine_ok len nnodes in
+  if fine then begin
+    count "file_big_fine";
+    List.iteri (fun j cp -> match cp with
+      | None -> ()
+      | Some (ns, fl) ->
+          if unzs (flatten (znodes ns)) <> fl then mismatch id (Printf.sprintf "flatten of copy %d differs from the model" j)) copies
+  end;
+  (match tag res with
+   | "panic" when not must_refuse -> propfail id ("Merge panics on copies of equal length: " ^ string_of_sx res)
+   | "ok" when must_refuse -> propfail id "Merge accepted a missing copy or copies of different length instead of refusing them"
+   | "panic" ->
+       count "file_refused";
+       if post_nodes <> self_nodes then propfail id "a refused merge changed the file";
+       if logsum <> [] then propfail id "a refused merge reported lines"
+   | "ok" ->
+       count "file_merged";
+       let other_flats = List.map (fun o -> match o with Some (_, fl) -> fl | None -> failwith "nil") others in
+       if List.length post_flat <> len then
+         propfail id (Printf.sprintf "length changed by the merge: %d -> %d" len (List.length post_flat));
+       let (spec, nrep) = spec_by_line day self_flat other_flats in
+       if in_range then begin
+         if spec <> post_flat then
+           propfail id (Printf.sprintf "per-line rule violated in a file of %d lines, %s (copies at that line: %s): result=%s oldest-real-tick rule=%s"
+                          len (first_diff post_flat spec)
+                          (let rec idx i a b = match a, b with x :: a', y :: b' -> if x <> y then i else idx (i + 1) a' b' | _ -> -1 in
+                           let i = idx 0 post_flat spec in
+                           if i < 0 then "-" else String.concat " " (List.map (fun l -> string_of_int (List.nth l i)) (self_flat :: other_flats)))
+                          (show_rle post_flat) (show_rle spec))
+       end else count "file_day_out_of_range";
+       if not day_marked then begin
+         if not (no_mark_by_line post_flat) then propfail id ("a merge mark survives: " ^ show_rle post_flat);
+         if nrep > 0 then count "file_with_all_marked_lines";
+         List.iter (fun k ->
+           let l = List.filter (fun (u, _, _, _, _) -> u = k) logsum in
+           let total = List.fold_left (fun a (_, _, _, _, n) -> a + n) 0 l in
+           if total <> nrep then
+             propfail id (Printf.sprintf "updater %d received %d report(s) for %d line(s) marked in every copy" k total nrep)
+           else if List.exists (fun (_, cu, pr, d, _) -> cu <> day || pr <> day || d <> 1) l then
+             propfail id "a line marked in every copy was not reported as (day, day, +1)") [0; 1];
+         if in_range && not (wf_nodes_b (znodes post_nodes)) then
+           propfail id ("the rebuilt node list is not well formed (" ^ string_of_int (List.length post_nodes) ^ " nodes)")
+       end else count "file_day_marked";
+       (* ---- fine correspondence (cheap cases only) *)
+       if post_len <> List.length post_flat then mismatch id "Len() after Merge";
+       if post_count <> List.length post_nodes then mismatch id "Nodes() after Merge";
+       if fine then begin
+         (match file_merge (z_of_int day) (znodes self_nodes)
+                  (List.map (fun o -> match o with None -> None | Some (ns, _) -> Some (znodes ns)) others) with
+          | Ok (mnodes, mreps) ->
+              if unznodes mnodes <> post_nodes then mismatch id "node list after Merge differs from the model";
+              if 2 * List.length mreps <> List.fold_left (fun a (_, _, _, _, n) -> a + n) 0 logsum then mismatch id "callback log size differs from the model"
+          | Panic cl -> mismatch id ("impl merges, model panics " ^ class_name cl));
+         if unzs (flatten (znodes post_nodes)) <> post_flat then mismatch id "flatten of the merged file"
+       end
+   | _ -> mismatch id ("observation shape " ^ string_of_sx res));
+  (match field_opt "others-same" post with
+   | Some o -> if int_of_sx (List.hd (args o)) = 0 then mismatch id "another copy was changed by Merge"
+   | None -> mismatch id "others-same missing")
+  end
+
 (* ------------------------------------------------------------------ file level *)
 let file_case id c =
   let obs = field "obs" c in
@@ -29,7 +172,8 @@ let file_case id c =
   let pre = args (field "pre" obs) in
   let copies = List.map (fun p -> match tag p with
     | "nil" -> None
-    | _ -> Some (nodes_of_sx (field "nodes" p), ints_of_args (field "flat" p))) pre in
+    | _ -> Some (nodes_of_sx (field "nodes" p), lines_of p)) pre in
+  if field_opt "big" obs <> None then big_file_case id c obs day copies else begin
   (* fine: flatten of every input copy *)
   List.iteri (fun j cp -> match cp with
     | None -> ()
@@ -111,17 +255,15 @@ let file_case id c =
     | Some (_, fl), "flat" -> if ints_of_args po <> fl then mismatch id (Printf.sprintf "other copy %d changed by Merge" (j + 1))
     | _ -> mismatch id "others shape") (List.combine others pothers)
   end
+  end
 
 (* ------------------------------------------------------------------ analysis level *)
 let files_of_sx s : (int * int list) list =
   List.map (fun f -> match ints_of_sx f with p :: l -> (p, l) | [] -> failwith "file") (args s)
 
-let ana_case id c =
-  let obs = field "obs" c in
-  (match field_opt "setup-panic" obs with
-   | Some s -> failwith ("the harness could not set the case up: " ^ string_of_sx s)
-   | None -> ());
-  let people = int_of_sx (List.hd (args (field "people" c))) in
+(* judges one observed BurndownAnalysis.Merge: [obs] holds pre / day / hist0 / res / post / hist1 (and, from the
+   analysis-level harness, forked / probed); [probe] = (branch, path) of the isolation probe *)
+let ana_judge id (people : int) (probe : int list) obs =
   let pre = List.map (fun b ->
       (files_of_sx (field "files" b),
        List.map (fun e -> match ints_of_sx e with [p; v] -> (p, v <> 0) | _ -> failwith "merged") (args (field "merged" b)),
@@ -222,7 +364,7 @@ let ana_case id c =
             mismatch id (Printf.sprintf "file %d of branch %d after Merge differs from the model" p j)) paths;
         if List.length fs <> List.length (List.sort_uniq compare (List.map fst fs)) then mismatch id "duplicate path") (List.combine mall post);
       (* ---- isolation probe *)
-      (match field_opt "probed" obs, ints_of_args (field "probe" c) with
+      (match field_opt "probed" obs, probe with
        | Some pr, [pb; pp] ->
            (match args pr with
             | [L [A "absent"]] -> count "ana_probe_absent"
@@ -240,11 +382,117 @@ let ana_case id c =
       end
   | _ -> mismatch id ("observation shape " ^ string_of_sx res)
 
+let ana_case id c =
+  let obs = field "obs" c in
+  (match field_opt "setup-panic" obs with
+   | Some s -> failwith ("the harness could not set the case up: " ^ string_of_sx s)
+   | None -> ());
+  let people = int_of_sx (List.hd (args (field "people" c))) in
+  ana_judge id people (ints_of_args (field "probe" c)) obs
+
+(* ------------------------------------------------------------------ pipeline level *)
+(* The history is part of the case: every commit with its complete tree.  A path is TOUCHED by a merge commit
+   when its content in the merge commit differs from its content in the commit some participating branch consumed
+   before it (present vs absent counts) - the tree that branch replays the merge commit against.  This is computed
+   here from the trees alone - not from the mergedFiles flags the implementation keeps. *)
+let expand_ids (l : sx list) : int list =
+  List.concat_map (fun x -> match x with
+    | A _ -> [int_of_sx x]
+    | L [A "r"; a; n] -> List.init (int_of_sx n) (fun k -> int_of_sx a + k)
+    | _ -> failwith "ids") l
+
+let pipe_case id c =
+  let obs = field "obs" c in
+  if field_opt "hang" obs <> None then propfail id "the pipeline does not terminate" else begin
+  let commits = Array.of_list (List.map (fun cm ->
+      (ints_of_args (field "p" cm),
+       List.filter_map (fun f -> if tag f = "f" then (match args f with p :: ids -> Some (int_of_sx p, expand_ids ids) | [] -> None) else None) (args cm)))
+      (args (field "commits" c))) in
+  let snap ci p = List.assoc_opt p (snd commits.(ci)) in
+  let run = List.map atom (args (field "run" obs)) in
+  (match run with
+   | ["ok"] -> count "pipe_run_ok"
+   | ["bad-case"] -> count "pipe_bad_case"
+   | ["panic"; "prevmark"] -> propfail id "the pipeline panics with \"previousTime cannot be TreeMergeMark\": a merge mark outlived a merge"
+   | _ -> mismatch id ("the pipeline run failed: " ^ String.concat " " run));
+  let npeople = match field_opt "npeople" obs with Some x -> int_of_sx (List.hd (args x)) | None -> 0 in
+  List.iter (fun m -> if tag m = "merge" then begin
+    count "pipe_merges";
+    (* the oracles and the model correspondence shared with the analysis-level stream (keys = observed mergedFiles) *)
+    ana_judge id npeople [] m;
+    let lasts = ints_of_args (field "last" m) in
+    let mc = List.hd lasts in
+    let res = List.hd (args (field "res" m)) in
+    if List.exists (fun x -> x <> mc) lasts || mc < 0 || List.length (fst commits.(mc)) < 2
+       || List.exists (fun x -> x = 0) (ints_of_args (field "ismerge" m)) then count "pipe_merge_irregular"
+    else if tag res = "ok" && field_opt "observe-panic" (field "post" m) = None then begin
+      count "pipe_merge_judged";
+      let day = int_of_sx (List.hd (args (field "day" m))) in
+      let pre = List.map (fun b -> files_of_sx (field "files" b)) (args (field "pre" m)) in
+      let post = List.map (fun b -> files_of_sx (field "files" b)) (args (field "post" m)) in
+      (* the trees the participating branches compared the merge commit with: their previous commits *)
+      let prevs = ints_of_args (field "prev" m) in
+      let psnap q p = if q < 0 then None else snap q p in
+      let paths = List.sort_uniq compare (List.concat_map (fun ci -> if ci < 0 then [] else List.map fst (snd commits.(ci))) (mc :: prevs)) in
+      let touched = List.filter (fun p -> List.exists (fun q -> psnap q p <> snap mc p) prevs) paths in
+      if List.exists (fun q -> q >= 0 && not (List.mem q (fst commits.(mc)))) prevs then count "pipe_merge_prev_not_parent";
+      let show = function None -> "nil" | Some l -> show_ints l in
+      List.iter (fun p ->
+        count "pipe_touched_path";
+        let vals = List.map (fun fs -> List.assoc_opt p fs) post in
+        (match vals with
+         | v0 :: r when List.exists (fun x -> x <> v0) r ->
+             propfail id (Printf.sprintf "after the merge of commit %d the branches disagree on file %d, which that commit touches: %s"
+                            mc p (String.concat " | " (List.map show vals)))
+         | _ -> ());
+        match snap mc p with
+        | None ->
+            if List.exists (fun x -> x <> None) vals then
+              propfail id (Printf.sprintf "file %d is gone in merge commit %d but still tracked after the merge" p mc)
+        | Some text ->
+            List.iteri (fun j x -> match x with
+              | None -> propfail id (Printf.sprintf "file %d of merge commit %d is not tracked in branch %d after the merge" p mc j)
+              | Some l -> if List.length l <> List.length text then
+                    propfail id (Printf.sprintf "file %d has %d lines in merge commit %d but %d tracked lines in branch %d" p (List.length text) mc (List.length l) j)) vals;
+            (match List.filter_map (fun fs -> List.assoc_opt p fs) pre with
+             | f0 :: r when List.for_all (fun f -> List.length f = List.length f0) r && day >= 0 && day < u32_max ->
+                 let spec = unzs (spec_lines (z_of_int day) (zs f0) (List.map zs r)) in
+                 count "pipe_touched_path_by_rule";
+                 List.iteri (fun j x -> match x with
+                   | Some l when l <> spec ->
+                       propfail id (Printf.sprintf "file %d touched by merge commit %d: branch %d holds %s after the merge, the oldest-real-tick rule over the copies %s gives %s"
+                                      p mc j (show_ints l) (String.concat " | " (List.map show_ints (f0 :: r))) (show_ints spec))
+                   | _ -> ()) vals
+             | _ -> ())) touched;
+      (* every participating branch has replayed the merge commit: afterwards it tracks exactly the (text) files of
+         that commit, each with as many lines as the blob - also the paths the merge commit does not touch *)
+      List.iteri (fun j fs ->
+        List.iter (fun (p, text) -> match List.assoc_opt p fs with
+          | None -> propfail id (Printf.sprintf "file %d of merge commit %d is not tracked in branch %d after the merge" p mc j)
+          | Some l -> if List.length l <> List.length text then
+                propfail id (Printf.sprintf "file %d has %d lines in merge commit %d but %d tracked lines in branch %d after the merge" p (List.length text) mc (List.length l) j))
+          (snd commits.(mc));
+        List.iter (fun (p, _) -> if snap mc p = None then
+          propfail id (Printf.sprintf "file %d is not part of merge commit %d but tracked in branch %d after the merge" p mc j)) fs) post;
+      if not (mark (z_of_int day)) then
+        List.iteri (fun j fs -> List.iter (fun (p, l) ->
+          if not (no_mark_b (zs l)) then
+            propfail id (Printf.sprintf "a merge mark survives the merge of commit %d in file %d of branch %d: %s" mc p j (show_ints l))) fs) post
+    end
+  end) (args obs);
+  (match field_opt "final" obs with
+   | Some f when field_opt "files" f <> None ->
+       List.iter (fun (p, l) -> if not (no_mark_b (zs l)) then
+         propfail id (Printf.sprintf "a merge mark is left in file %d at the end of the run: %s" p (show_ints l))) (files_of_sx (field "files" f))
+   | _ -> ())
+  end
+
 let () =
   iter_cases (fun id c ->
     if field_opt "hang" (field "obs" c) <> None then
       propfail id "Merge (or reading the merged files back) does not terminate"
     else
-    match field_opt "people" c with
-    | Some _ -> count "ana_cases"; ana_case id c
-    | None -> count "file_cases"; file_case id c)
+    match field_opt "commits" c, field_opt "people" c with
+    | Some _, _ -> count "pipe_cases"; pipe_case id c
+    | None, Some _ -> count "ana_cases"; ana_case id c
+    | None, None -> count "file_cases"; file_case id c)
